@@ -115,6 +115,9 @@ class _PipeConn:
         os.write(self.fd, len(data).to_bytes(8, 'big') + data)
 
 
+CHILD_TIMEOUT = 30      # a healthy child takes well under a second
+
+
 def run_child(root, kind, value_kind, keys, crash_at=-1, half=False):
     """a forked child with fresh pipeline objects (plain os.fork: callable from pool workers)"""
     r, w = os.pipe()
@@ -125,7 +128,20 @@ def run_child(root, kind, value_kind, keys, crash_at=-1, half=False):
         os._exit(0)
     os.close(w)
     chunks = []
+    import select, signal, time
+    deadline = time.monotonic() + CHILD_TIMEOUT
+    hung = False
     while True:
+        left = deadline - time.monotonic()
+        ready = select.select([r], [], [], max(0.0, left))[0] if left > 0 else []
+        if not ready:
+            # a process that never answers: the storage is unusable for it (e.g. it waits for something a dead writer left behind)
+            hung = True
+            try:
+                os.kill(pid, signal.SIGKILL)
+            except ProcessLookupError:
+                pass
+            break
         data = os.read(r, 1 << 16)
         if not data:
             break
@@ -133,6 +149,8 @@ def run_child(root, kind, value_kind, keys, crash_at=-1, half=False):
     os.close(r)
     _, status = os.waitpid(pid, 0)
     code = os.waitstatus_to_exitcode(status)
+    if hung:
+        return 'timeout', {'error': f'the process did not finish within {CHILD_TIMEOUT} s (it hangs)'}
     raw = b''.join(chunks)
     res = None
     if len(raw) >= 8:
